@@ -248,6 +248,13 @@ func (in *Interp) svCall(fr *Frame, name string, args []Value, fn *ssa.Function)
 		return int64(len(in.events))
 	case "Steps":
 		return int64(in.steps)
+	case "MoreFuel":
+		// a harness that knows one of its paths is long (a 64 KiB program) asks
+		// for a larger unwinding bound for this path; still a bound
+		if n, ok := args[0].(int64); ok && n > 0 && n <= 2_000_000_000 {
+			in.fuel += int(n)
+		}
+		return nil
 	case "Cost":
 		s0 := in.steps
 		in.callValue(fr, args[0], nil)
@@ -269,9 +276,9 @@ func (in *Interp) svCall(fr *Frame, name string, args []Value, fn *ssa.Function)
 func (in *Interp) outcome(fr *Frame, f Value) (res Value) {
 	defer func() {
 		if r := recover(); r != nil {
-			if _, ok := r.(fatalStack); ok {
+			if f, ok := r.(fatalStack); ok {
 				in.unwinding = false
-				res = "fatal:stack-overflow"
+				res = "fatal:" + f.why
 				return
 			}
 			gp, ok := r.(*GoPanic)
